@@ -254,8 +254,8 @@ pub fn affine3a_of(a: [f32; 12]) -> Affine3A {
 // ---- uninterpreted matrix-level functions (forwarding lemmas): key = bits of up to two matrices + one vector/scalar
 pub struct MemoK<T: Copy> {
     pub calls: usize,
-    pub k: [[u64; 36]; 6],
-    pub v: [T; 6],
+    pub k: [[u64; 36]; 10],
+    pub v: [T; 10],
 }
 #[inline(always)]
 pub fn keq36(a: &[u64; 36], b: &[u64; 36]) -> bool {
@@ -284,14 +284,14 @@ pub fn kcat(a: [u64; 16], b: [u64; 16], c: [u64; 4]) -> [u64; 36] {
 }
 impl<T: Copy> MemoK<T> {
     pub const fn new(z: T) -> Self {
-        MemoK { calls: 0, k: [[0; 36]; 6], v: [z; 6] }
+        MemoK { calls: 0, k: [[0; 36]; 10], v: [z; 10] }
     }
     #[inline(always)]
     pub fn get(&mut self, key: [u64; 36], fresh: T) -> T {
         let i = self.calls;
-        assert!(i < 6, "uf memo table overflow");
+        assert!(i < 10, "uf memo table overflow");
         let mut v = fresh;
-        let mut j = 6;
+        let mut j = 10;
         while j > 0 {
             j -= 1;
             if j < i && keq36(&self.k[j], &key) {
